@@ -67,6 +67,7 @@ func init() {
 		`()`,
 		``,
 	)
+	WithSub[sxList](f, sexprParser, `(1 (2) x)`)
 	f.Nesting = func(n int) string {
 		return strings.Repeat("(", n) + "1" + strings.Repeat(")", n)
 	}
